@@ -143,14 +143,15 @@ def _mkblock(name, typ, numb, abstract, hostport, path=None):
     return l
 
 
-def body_override(cn: bool, ct: int, cnum: bool, cab: bool, ln: bool, lt: int, lnum: bool, lab: bool, lhp: bool, sidecar: bool, addlink: bool, uselink: bool = True, captail: int = 0) -> bool:
+def body_override(cn: bool, ct: int, cnum: bool, cab: bool, ln: bool, lt: int, lnum: bool, lab: bool, lhp: bool, sidecar: bool, addlink: bool, uselink: bool = True, captail: int = 0, addpath: int = 0) -> bool:
     from pygopherd.handlers import UMN
 
     cfg = dl.config({("handlers.UMN.UMNDirHandler", "extstrip"): "none"})
     capb = _mkblock("Cap name" if cn else None, TYPES[ct], -3 if cnum else None, "cap abstract" if cab else None, False)
     lnkb = _mkblock("Link name" if ln else None, TYPES[lt], -2 if lnum else None, "link abstract" if lab else None, lhp, path="./a.txt")
     links = [l + "\n" for l in lnkb]
-    added = ["Name=Added", "Type=1", "Path=/added", "Host=+", "Port=+", "Numb=1"]
+    # a block whose Path does not start with ./ ADDS an entry -- also when its path happens to name an existing file of this directory
+    added = ["Name=Added", "Type=1", "Path=" + ["/added", "b.txt", "/d/b.txt"][addpath], "Host=+", "Port=+", "Numb=1"]
     if addlink:
         links += ["\n"] + [l + "\n" for l in added]
     if not uselink:
@@ -272,10 +273,10 @@ def obligations(tier, seed):
     for ct in range(4):
         for lt in range(3):
             obs.append(Ob(id="C08.3-override[cap.Type=%s,link.Type=%s]" % (TYPES[ct], TYPES[lt]), body="harness.C08:body_override",
-                          sig="cn: bool, ct: int, cnum: bool, cab: bool, ln: bool, lt: int, lnum: bool, lab: bool, lhp: bool, sidecar: bool, addlink: bool, uselink: bool, captail: int",
-                          pre=["ct == %d" % ct, "lt == %d" % lt, "0 <= captail <= 2"] + (["lhp == False", "addlink == uselink", "captail == (1 if cn else 0)"] if tier == "quick" else []), timeout=300 if tier == "quick" else 1200,
+                          sig="cn: bool, ct: int, cnum: bool, cab: bool, ln: bool, lt: int, lnum: bool, lab: bool, lhp: bool, sidecar: bool, addlink: bool, uselink: bool, captail: int, addpath: int",
+                          pre=["ct == %d" % ct, "lt == %d" % lt, "0 <= captail <= 2", "0 <= addpath <= 2"] + (["lhp == False", "addlink == uselink", "captail == (1 if cn else 0)", "addpath == (0 if not addlink else (1 if lab else 2) if sidecar else 0)"] if tier == "quick" else ["addpath == 0 or addlink"]), timeout=300 if tier == "quick" else 1200,
                           desc="a.txt with an optional .abstract sidecar, a .cap/a.txt block and a `Path=./a.txt` block in .Links, each with a symbolic subset of "
-                               "Name/Numb/Abstract(/Host+Port) and the given Type (the .cap file optionally ending in a blank line / a blank line and a comment), plus an added link: only the set fields change, X/- hides, the added link is appended, "
+                               "Name/Numb/Abstract(/Host+Port) and the given Type (the .cap file optionally ending in a blank line / a blank line and a comment), plus an added link (whose path is new, or relative/absolute naming an existing file): only the set fields change, X/- hides, the added link is appended, "
                                "the order is the documented one",
                           bounds="2^4 x 2^5 field subsets x sidecar x added link (symbolic)", functions=["UMNDirHandler.prep_entriesappend/MergeLinkFiles/mergeentries/entrycmp", "GopherEntry.handleeaext"]))
     obs.append(Ob(id="C08.6-extstrip", body="harness.C08:body_extstrip", sig="mode: int", pre=["0 <= mode <= 2"], timeout=120,
